@@ -12,11 +12,11 @@ use std::collections::{BTreeMap, HashMap};
 pub fn spec(tier: Tier) -> RunSpec {
     super::base_spec(
         8,
-        "maps of 0..20 distinct non-empty keys to non-empty values over printable Unicode scalar values (no controls, no whitespace other than U+0020): ASCII reserved characters & = % + ? # / : ; @ [ ] , ! $ ' ( ) * and space \
+        "maps of 0..20 distinct non-empty keys to non-empty values over printable Unicode scalar values (no controls; space separators other than U+0020 in interior positions): ASCII reserved characters & = % + ? # / : ; @ [ ] , ! $ ' ( ) * and space \
 over-represented, '%' followed by two hex digits (both cases), by one, by non-hex, multi-byte and astral characters; encoded size below the request buffer. Four routes per map: URL::parse_query(URL::build_query(m)); \
 FormUrlEncoded::parse(FormUrlEncoded::generate(m)); GET /form-get-method?<encoder output> and POST /form-url-encoded-enctype-post-method with the encoder output as body through Server::process, comparing the echoed 'key is value' lines as a multiset. \
 Oracle: decoded map == m; echoed lines == {k is v}. Non-trivial = a field containing a reserved character, '%' or a non-ASCII character; distinct by map.",
-        &["the encoder under test is the library's own (URL::build_query / FormUrlEncoded::generate)", "Unicode whitespace other than the ASCII space is outside 'printable text' (the form-body parser trims the whole body)"],
+        &["the encoder under test is the library's own (URL::build_query / FormUrlEncoded::generate)", "space separators other than U+0020 (U+00A0, U+3000 ...) are generated in interior positions only (the form-body parser trims the whole body); line and paragraph separators and control characters are outside 'printable text'"],
         if tier == Tier::Quick { 600 } else { 7200 },
     )
 }
@@ -32,12 +32,15 @@ fn ch() -> impl Strategy<Value = String> {
         1 => prop::sample::select(vec!["%2", "%zz", "%%", "%25", "%20", "%3d", "%7E", "%41", "%0A", "%u00e9", "%2a", "%5b", "%e9", "%C3%A9", "%", "%g1"]).prop_map(|s| s.to_string()),
         2 => prop::sample::select(vec!["é", "ж", "中", "ß", "Ω", "€", "😀", "𝔘", "İ", "ñ", "日本"]).prop_map(|s| s.to_string()),
         1 => any::<char>().prop_filter("printable", |c| !c.is_control() && !c.is_whitespace() && (*c as u32) > 0x20).prop_map(|c| c.to_string()),
+        // space separators other than U+0020 (no-break space, ideographic space, em space, narrow no-break space): printable text; kept away from
+        // the two ends of a name or value by text() because the form-body parser trims the whole body
+        1 => prop::sample::select(vec!["\u{a0}", "\u{3000}", "\u{2003}", "\u{202f}", "\u{1680}", "山田\u{3000}太郎"]).prop_map(|s| s.to_string()),
     ]
 }
 
 fn text() -> impl Strategy<Value = String> {
     prop_oneof![
-        30 => proptest::collection::vec(ch(), 1..12).prop_map(|v| v.concat()),
+        30 => proptest::collection::vec(ch(), 1..12).prop_map(|v| { let s = v.concat(); let f = s.chars().next().map(|c| c.is_whitespace() && c != ' ').unwrap_or(false); let l = s.chars().last().map(|c| c.is_whitespace() && c != ' ').unwrap_or(false); format!("{}{}{}", if f { "x" } else { "" }, s, if l { "x" } else { "" }) }),
         // long names / values (up to about 1 KiB so that a map still fits the request buffer), single- and multi-byte characters
         1 => crate::fw::greq::long_text().prop_map(|b| { let s: String = String::from_utf8_lossy(&b.0).chars().filter(|c| !c.is_whitespace() || *c == ' ').collect(); let s = s.trim().to_string(); let cut: String = s.chars().take(600).collect(); if cut.is_empty() { "x".to_string() } else { cut } }),
     ]
